@@ -105,10 +105,11 @@ def r20b(ctx):
                 e = a.flow.rvalue(r, 0)
                 if any(a.rooted_at(c, n) for _, c in e[3]):
                     target = r['def']
+                    regname = [nm_ for nm_, c in e[3] if a.rooted_at(c, n)][0]
     if not ctx.check(target is not None, 'R20b', fn, 'waiter future', '-', 'the Notified registration is moved into the returned async block'):
         return
     ac = an(F.body(target))
-    polls = [p for p in ac.calls('core::future::future::Future::poll') if flow.mentions(ac.arg(p, 0), lambda z: z[0] == 'upvar' and z[1] == 'notified')]
+    polls = [p for p in ac.calls('core::future::future::Future::poll') if flow.mentions(ac.arg(p, 0), lambda z: z[0] == 'upvar' and z[1] == regname)]
     gets = ac.calls(M + 'Call::get')
     ok = len(polls) == 1 and len(gets) == 1 and ac.cfg.must_pass(gets[0], via_blocks=polls)
     ctx.check(ok, 'R20b', target, 'await-then-get', ac.loc(gets[0]) if gets else '-', 'the waiter future awaits the registration and only then reads the result with get()')
@@ -132,6 +133,14 @@ def r20c(ctx):
                   'the owner can finish without completing the call: waiters never receive the outcome')
         # same result value
         same = bool(comps) and flow.access_path(a.arg(comps[0], 1)) == flow.access_path(e[3][0][1]) and a.root_call(a.arg(comps[0], 1)) is not None
+        if not same and comps:
+            # the outcome may be built by an explicit match into a variable: same variable on both sides, every value it
+            # can hold derived from the inner future's output
+            x, y = a.arg(comps[0], 1), e[3][0][1]
+            polls = [p_ for p_ in a.calls('core::future::future::Future::poll')]
+            srcs = a.flow.sources(x)
+            same = (x == y and x[0] == 'local' and bool(polls) and len(srcs) >= 1
+                    and all(flow.mentions(se, lambda z: z[0] == 'field' and z[2] == 'fut') for (_, _, se) in srcs))     # (poll is transparent: the polled future stands for its output)
         ctx.check(same, 'R20c', fn, 'complete.arg', a.loc(comps[0]) if comps else '-', 'the value handed to complete is the value returned in Poll::Ready (%s)' % flow.show(e[3][0][1]))
     if stores and comps:
         ctx.check(a.cfg.must_pass(comps[0], via_blocks=stores), 'R20c', fn, 'store<complete', a.loc(comps[0]), 'got_response is set before complete (a panic inside complete cannot double-complete)')
